@@ -162,24 +162,25 @@ func TestVerif_C21_Remote(t *testing.T) {
 	rec := vstat.New(t, "C21", "remote",
 		"2-node cluster; database of generated size (rows {3,200,3000} x value length {5,200}); per case 6..12 (thorough ..20) backups requested on the follower through proxy.Backup with format {binary,delete,sql} x compress x vacuum and the leader->follower byte stream cut after n bytes, n over [0, uncut length] weighted to both ends (cut on every connection, or on the first connection only with n in 0..30 so that a client-side retry gets a clean stream), plus uncut runs; non-trivial = a cut fell strictly inside the stream; distinct by (format,compress,vacuum,cut position class,rows)")
 	rapid.Check(t, func(rt *rapid.T) {
+		defer c21rRecoverInfra(rec, t)
 		rows := rapid.SampledFrom([]int{3, 200, 3000}).Draw(rt, "rows")
 		vlen := rapid.SampledFrom([]int{5, 200}).Draw(rt, "vlen")
 		nreq := rapid.IntRange(6, vstat.Scale(12, 20)).Draw(rt, "nReqs")
 
 		dir, err := os.MkdirTemp("", "c21r-")
 		if err != nil {
-			rt.Skip("tempdir")
+			c21rInfra("tempdir")
 		}
 		defer os.RemoveAll(dir)
 		c := vnode.NewCluster(filepath.Join(dir, "cluster"), vnode.Fast())
 		defer c.Close()
 		if err := c.Form(2, 0); err != nil {
 			t.Logf("infrastructure: %v", err)
-			rt.Skip("cluster did not form")
+			c21rInfra("cluster did not form")
 		}
 		leader := c.WaitLeader(20 * time.Second)
 		if leader == nil {
-			rt.Skip("no leader")
+			c21rInfra("no leader")
 		}
 		var follower *vnode.Node
 		for _, n := range c.Live() {
@@ -204,13 +205,13 @@ func TestVerif_C21_Remote(t *testing.T) {
 		res, _, err := leader.Store.Execute(ctx, er)
 		if err != nil || vnode.ExecErr(res) != "" {
 			t.Logf("infrastructure: setup: %v %s", err, vnode.ExecErr(res))
-			rt.Skip("setup failed")
+			c21rInfra("setup failed")
 		}
 		// reference: the leader's database through the local path
 		var ref bytes.Buffer
 		refKind := reqKind{Format: "binary"}
 		if err := leader.Store.Backup(ctx, refKind.req(), &ref); err != nil {
-			rt.Skip("reference backup failed")
+			c21rInfra("reference backup failed")
 		}
 		want, why := restore(dir, refKind, ref.Bytes())
 		if why != "" {
@@ -245,7 +246,7 @@ func TestVerif_C21_Remote(t *testing.T) {
 			// uncut run: measures the stream length
 			data, total, _, _, err := run(k, -1, false)
 			if err != nil && err.Error() == "harness-timeout" {
-				rt.Skip("uncut backup did not return in 90s")
+				c21rInfra("uncut backup did not return in 90s")
 			}
 			ctxs := fmt.Sprintf("%s rows=%d vlen=%d", k, rows, vlen)
 			if err != nil {
@@ -291,7 +292,7 @@ func TestVerif_C21_Remote(t *testing.T) {
 			}
 			data, _, wasCut, conns, err := run(k, n, firstOnly)
 			if err != nil && err.Error() == "harness-timeout" {
-				rt.Skip("cut backup did not return in 90s")
+				c21rInfra("cut backup did not return in 90s")
 			}
 			class := "inside"
 			if n < 30 {
@@ -337,4 +338,22 @@ func TestVerif_C21_Remote(t *testing.T) {
 		}
 		_ = anyInside
 	})
+}
+
+// c21rInfraSkip unwinds a case that hit infrastructure trouble (a store that did
+// not come up, a request that could not be served): the case is counted as
+// inconclusive, it is neither a pass nor a violation.
+type c21rInfraSkip struct{ why string }
+
+func c21rInfra(why string) { panic(c21rInfraSkip{why}) }
+
+func c21rRecoverInfra(rec *vstat.Rec, t *testing.T) {
+	if r := recover(); r != nil {
+		if s, ok := r.(c21rInfraSkip); ok {
+			rec.Label("inconclusive:infrastructure")
+			t.Logf("inconclusive (infrastructure): %s", s.why)
+			return
+		}
+		panic(r)
+	}
 }
